@@ -18,6 +18,7 @@ import os
 import signal
 import subprocess
 import sys
+import tempfile
 import time
 import traceback
 
@@ -369,9 +370,12 @@ class Run(object):
             "violations": nviol,
         }
         d = os.path.join(VERIF, "evidence")
+        if os.environ.get("VERIF_REPO") or os.environ.get("VERIF_TASKS"):
+            # development runs (against a scratch tree / restricted to some adapters) never touch the committed evidence
+            d = os.path.join(tempfile.gettempdir(), "verif_scratch_evidence")
         os.makedirs(d, exist_ok=True)
         path = os.path.join(d, "%s.json" % self.pid)
-        tmp = path + ".tmp"
+        tmp = "%s.%d.tmp" % (path, os.getpid())
         with open(tmp, "w") as f:
             json.dump(sanitize(jsonable(ev)), f, indent=1, sort_keys=True, allow_nan=False)
         os.replace(tmp, path)
